@@ -15,9 +15,23 @@ type Case struct {
 	// trim family only
 	TrimCells []string `json:"trim_cells,omitempty"` // selected cells "col|row"
 	Follow    *string  `json:"follow,omitempty"`     // one more sample applied after Trim
+	// size family only: Config names "<aggregator>/<shape>[/<configuration>]", the samples are generated from N
+	N int `json:"n,omitempty"`
 }
 
 type fail struct{ sig, detail string }
+
+// checkAt decides after which prefixes (applied = number of samples applied so
+// far, 0..total) the accessors are called and compared with the reference.
+// The state after the last sample is always checked.
+type checkAt func(applied, total int) bool
+
+func (c checkAt) at(applied, total int) bool { return applied == total || c(applied, total) }
+
+func everyPrefix(int, int) bool { return true }
+
+// finalOnly: no accessor is called before the last sample has been applied.
+func finalOnly(applied, total int) bool { return applied == total }
 
 func failf(sig, format string, a ...any) *fail {
 	return &fail{sig: sig, detail: fmt.Sprintf(format, a...)}
